@@ -432,7 +432,7 @@ type world06 struct {
 
 func isTrieNodeKey(scheme string, key []byte) bool {
 	if scheme == rawdb.PathScheme {
-		return rawdb.IsAccountTrieNode(key) || rawdb.IsStorageTrieNode(key)
+		return isPathNodeKey(key)
 	}
 	return len(key) == common.HashLength
 }
